@@ -3,6 +3,9 @@
 import json, os
 ROOT = os.path.dirname(os.path.abspath(__file__))
 props = json.load(open(os.path.join(ROOT, "props.json")))
+import glob
+for _f in sorted(glob.glob(os.path.join(ROOT, "c[0-9][0-9]*", "prop.json"))):
+    props.update(json.load(open(_f)))
 allp = [json.loads(l) for l in open(os.path.join(ROOT, "properties.jsonl"))]
 checks = []
 na = []
